@@ -206,6 +206,7 @@ def run(ck: Check, prog: Program) -> None:
                            f'`{norm(n.ast.value)[:90]}` must carry the id of the request'
                            f'{"; it can be " + "; ".join(stray) + " although the request has an id" if stray else ""}')
     ck.ob('REPLY-ID', 'every matched reply is built from the request id', not any(f_.rule == 'REPLY-ID' and 'does not carry' in f_.construct for f_ in ck.findings), sample={'reply_ids': reply_ids})
+    _configured_values(ck, prog, ci)
     # ---- _on_request: endpoint fallbacks and element-wise batches -----------------------------------
     cfg2 = CFG(onr, prog)
     p2: List[Tuple[str, str, int, str]] = []
@@ -303,6 +304,27 @@ def run(ck: Check, prog: Program) -> None:
     if not ok_s:
         p2.append(('ELEMENTWISE', 'single request is not matched with its own method, params and id', onr.node.lineno,
                    'a single request must be answered by _match_request(endpoint, version, method, params, id) of the request parsed from the text'))
+    # every reply comes out of the matcher: whatever is serialised as the answer for a patched endpoint was produced by _match_request
+    # (recorded, round-robin advanced, `once` consumed) — the single reply directly, the batch reply element by element
+    reply_vars = {dotted(x.func.value) for x in ast.walk(onr.node) if isinstance(x, ast.Call) and isinstance(x.func, ast.Attribute)
+                  and x.func.attr == 'to_json' and isinstance(x.func.value, ast.Name)}
+    for n in cfg2.stmt_nodes():
+        for rv_ in sorted(v for v in reply_vars if v in assigned_names(n)):
+            kind_, val_ = fl2.def_value(n, rv_)
+            if kind_ != 'expr' or val_ is None:
+                if isinstance(n.ast, ast.AnnAssign) and n.ast.value is None:
+                    continue
+                p2.append(('ELEMENTWISE', f'reply `{rv_}` of unknown origin', n.line, f'`{norm(n.ast)[:80]}`'))
+                continue
+            for al in fl2.alts(n, val_):
+                v = al.expr
+                from_matcher = isinstance(v, ast.Call) and dotted(v.func) == 'self._match_request'
+                empty_batch = isinstance(v, ast.Call) and norm(v.func).endswith('BatchResponse') and not v.args and not v.keywords
+                if not (from_matcher or empty_batch):
+                    p2.append(('ELEMENTWISE', f'reply not produced by the matcher: {norm(v)[:40]}', n.line,
+                               f'`{norm(n.ast)[:90]}` answers a request on a patched endpoint with `{norm(v)[:60]}` without going through '
+                               f'_match_request: the call is not recorded, a callback is not invoked, the round-robin does not advance, a `once` '
+                               f'patch is not consumed and an unpatched method is not answered -32601'))
     # async transports: the patched transport is a coroutine function, so what it returns must be awaited by the replacement and every
     # reply of _on_request in async mode (mocked reply AND passthrough) must be an awaitable the replacement awaits
     st = ci.methods.get('start')
@@ -376,6 +398,65 @@ def run(ck: Check, prog: Program) -> None:
     ck.ob('ROTATE', 'replace overwrites the patch at the given index', ok_rep, nontrivial=False)
     if not ok_rep:
         ck.finding('ROTATE', ci.qualname + '.replace', 'replace does not overwrite index idx', ci.module.rel, rep.node.lineno if rep else 0, '')
+
+
+def _configured_values(ck: Check, prog: Program, ci: ClassInfo) -> None:
+    """REPLY-VALUE: the configured result / error travel from add() / replace() into the patch exactly as given: the parameters are
+    not reassigned, not tested for truth (0, False, "", [] and {} are results like any other; only UNSET means "not configured") and
+    are what the Match is built from."""
+    from ..flow import Flow
+    from ..util import is_unset_expr
+    n_ops = 0
+    for name in ('add', 'replace'):
+        f = ci.methods.get(name)
+        if f is None:
+            raise AnalysisError(f'{ci.qualname}.{name} not found')
+        n_ops += 1
+        ck.functions.add(f.qualname)
+        cfg = CFG(f, prog)
+        fl = Flow(cfg)
+        vals = [p.arg for p in f.params if f.param_default(p.arg) is not None and is_unset_expr(prog, f, f.param_default(p.arg))]
+        problems: List[Tuple[int, str, str]] = []
+        for n in cfg.stmt_nodes():
+            for v in vals:
+                if v in assigned_names(n):
+                    problems.append((n.line, f'configured {v} replaced: {norm(n.ast)[:40]}', f'`{norm(n.ast)[:80]}` replaces the configured {v}'))
+        for c in cfg.nodes:
+            if c.kind == 'cond':
+                ckd = classify_cond(prog, f, c.ast)
+                if ckd.kind == 'truthy' and ckd.subject in vals:
+                    problems.append((c.line, f'truthiness of the configured {ckd.subject}',
+                                     f'`{norm(c.ast)}` tests the configured {ckd.subject} for truth: a configured falsy value (0, False, "", [], {{}}) '
+                                     f'is treated like "not configured"; only `is UNSET` may decide that'))
+        ctor = [(n, c) for n in cfg.stmt_nodes() for c in calls_in(n) if dotted(c.func) == 'Match']
+        deleg = [(n, c) for n in cfg.stmt_nodes() for c in calls_in(n) if dotted(c.func) in ('self.add', 'self.replace') and dotted(c.func) != f'self.{name}']
+        if len(ctor) != 1 and len(deleg) == 1:
+            # the operation hands its arguments to the sibling operation, which builds the patch
+            mn, mc = deleg[0]
+            sib = ci.methods.get(dotted(mc.func).split('.')[1])
+            pos_names = [p.arg for p in sib.params[1:]] if sib is not None else []
+        elif len(ctor) == 1:
+            mn, mc = ctor[0]
+            pos_names = []
+        else:
+            ck.ob('REPLY-VALUE', f'{short(f.qualname)}: builds exactly one patch from its arguments', False)
+            ck.finding('REPLY-VALUE', f.qualname, f'{len(ctor)} Match(...) constructions', f.module.rel, f.node.lineno,
+                       f'{short(f.qualname)} must build exactly one patch (Match) from the configured values; found {len(ctor)} constructions')
+            continue
+        for v in vals:
+            kv = kwarg(mc, v, pos_names.index(v) if v in pos_names else None)
+            if kv is None:
+                problems.append((mc.lineno, f'configured {v} not stored in the patch', f'`{norm(mc)[:80]}` does not receive {v}'))
+                continue
+            leafs = [al.expr for al in fl.alts(mn, kv)]
+            if not all(dotted(x) == v for x in leafs):
+                problems.append((mc.lineno, f'patch built from something else than the configured {v}',
+                                 f'`{norm(mc)[:80]}` stores {[norm(x)[:30] for x in leafs]} as {v}'))
+        ck.ob('REPLY-VALUE', f'{short(f.qualname)}: the configured {vals} reach the patch unchanged and are never tested for truth', not problems)
+        for line, construct, msg in problems:
+            ck.finding('REPLY-VALUE', f.qualname, construct, f.module.rel, line,
+                       msg + ': the reply then does not carry the configured result / error')
+    ck.require('REPLY-VALUE', 'patch-creating operations', n_ops, 2)
 
 
 def _spread_problem(prog: Program, f: FuncInfo, cfg: CFG, fl, n: Node, c: ast.Call, pparam: str) -> Optional[str]:
@@ -603,6 +684,15 @@ def simulate_rotation(prog: Program, mr: FuncInfo, cfg: CFG, lst_var: str, sel_v
 
 
 MUTANTS = [
+    dict(name='falsy-result-defaulted', file='pjrpc/client/integrations/pytest.py', nth=0,
+         find='        match = Match(endpoint, version, method_name, once, id=id, result=result, error=error, callback=callback)\n',
+         replace='        if not (result or error or callback):\n            result = None\n'
+                 '        match = Match(endpoint, version, method_name, once, id=id, result=result, error=error, callback=callback)\n',
+         expect='REPLY-VALUE'),
+    dict(name='notification-answered-without-the-matcher', file='pjrpc/client/integrations/pytest.py',
+         find='        else:\n            request = pjrpc.Request.from_json(json_data)\n',
+         replace='        elif is_notification:\n            response = pjrpc.Response(id=None, result=None)\n'
+                 '        else:\n            request = pjrpc.Request.from_json(json_data)\n', expect='ELEMENTWISE'),
     dict(name='pop-tail', file='pjrpc/client/integrations/pytest.py', find='match = matches.pop(0)', replace='match = matches.pop()', expect='ROTATE'),
     dict(name='record-after-callback-only', file='pjrpc/client/integrations/pytest.py',
          find='''        if isinstance(params, (list, tuple)):
